@@ -589,7 +589,7 @@ class Exec:
         if q in self.repo.functions:
             fmod = q.rsplit('.', 1)[0]
             return [(st, VFunc(self.repo.functions[q], None, mod=fmod))]
-        if n.id in ('reversed', 'len', 'int', 'bool', 'bytes', 'bytearray', 'max', 'min', 'range', 'isinstance', 'sum', 'iter',
+        if n.id in ('itertools', 'reversed', 'len', 'int', 'bool', 'bytes', 'bytearray', 'max', 'min', 'range', 'isinstance', 'sum', 'iter',
                     'list', 'tuple', 'set', 'super', 'all', 'any', 'ValueError', 'TypeError', 'NotImplementedError',
                     'IndexError', 'KeyError', 'hashlib', 'math', 'binascii', 'os', 'str', 'getattr', 'setattr', 'chr', 'ord'):
             return [(st, VBuiltin(n.id))]
@@ -1141,6 +1141,11 @@ class Exec:
                 return [(st, VRange(lo, hi))]
             if name in ('ValueError', 'TypeError', 'NotImplementedError', 'IndexError', 'KeyError'):
                 return [(st, VStr(s=('exc', name)))]
+            if name == 'itertools.chain':
+                its = []
+                for a in A:
+                    its += self.items(a, st)
+                return [(st, VTuple(its))]
             if name == 'reversed':
                 x = A[0]
                 if isinstance(x, VSeqObj):
@@ -1251,6 +1256,8 @@ class Exec:
                 return [(st, VBytes(t))]
             if name == 'digest_size':
                 return [(st, VInt(hashlib.new(b.alg).digest_size))]
+        if isinstance(b, VDict) and name == 'values':
+            return [(st, VTuple([v for _, v in b.pairs]))]
         if isinstance(b, VList) and name == 'append':
             st.heap[b.cell] = st.heap[b.cell] + (A[0],)
             return [(st, VNone())]
@@ -1344,6 +1351,14 @@ class Exec:
 
     def ev_Yield(self, n, env, st, ctx):
         out = []
+        if self.yield_encoder == 'contextmanager':
+            for s, v in self.ev(n.value, env, st, ctx):
+                s2 = s.clone()
+                s.ghost['with_block'] = 'normal'
+                s2.ghost['with_block'] = 'raised'
+                out.append((s, VNone()))
+                out.append((s2, Raise('BlockException', n.lineno)))
+            return out
         for s, v in self.ev(n.value, env, st, ctx):
             enc = self.yield_encoder(self, s, v)
             s.ghost['yielded'] = z3.Concat(s.ghost['yielded'], z3.Unit(enc)) if 'yielded' in s.ghost else z3.Unit(enc)
